@@ -75,7 +75,7 @@ Proof.
 Qed.
 
 Lemma mark_pv_nonempty best l : l <> [] -> mark_pv best l <> [].
-Proof. unfold mark_pv. destruct best as [b|]; [|auto]. destruct l as [|m t]; [contradiction|]. intros _. destruct (opt_mv2_eqb (last_move m) (last_move b)); discriminate. Qed.
+Proof. unfold mark_pv. destruct best as [b|]; [|auto]. destruct l as [|m t]; [contradiction|]. intros _. destruct (is_pv_of b m); discriminate. Qed.
 
 Lemma do_sort_nonempty l s : l <> [] -> fst (do_sort osort l s) <> [].
 Proof. intros H. unfold do_sort. cbn [fst]. now apply osort_nonempty. Qed.
@@ -159,6 +159,33 @@ Proof.
   destruct (go_answer_is_a_send zt osort st cmds sc gt st' outs PG NE GS RU) as [H|(_ & ev & s & GB & SE & _)]; [exact H|].
   exfalso. destruct (search_sends_a_move zt osort osort_nonempty (sc_k sc) (sc_fuel sc) HF (ss_board st) (ss_table st) ev s NE GB) as [b Hb].
   apply send_in_sends_of in Hb. rewrite SE in Hb. contradiction.
+Qed.
+
+(* the move played is the newest one the search handed over (after the search thread is joined the channel is drained) *)
+Theorem go_plays_the_newest_send st cmds sc gt st' outs :
+  NULL_PLY_OFFSET * Z.of_nat (sc_fuel sc) + 1 <= 2 * M ->
+  parse_go_command cmds = Ok gt -> generate_moves zt (ss_board st) AllMoves <> [] ->
+  go_step zt osort st cmds sc = (st', outs) -> ss_phase st' = Running ->
+  exists ev s b t more,
+    get_best_move zt osort (sc_k sc) (sc_fuel sc) (ss_board st) (ss_table st) = Ok (ev, s) /\
+    sends_of ev = more ++ [b] /\ best_move_text b = Ok t /\ ss_board st' = b /\ outs = infos_of ev ++ [s_bestmove ++ t].
+Proof.
+  intros HF PG NE GS RU. unfold go_step in GS. rewrite PG in GS.
+  destruct (generate_moves zt (ss_board st) AllMoves) as [|m0 ms] eqn:G; [contradiction|].
+  destruct (get_best_move zt osort (sc_k sc) (sc_fuel sc) (ss_board st) (ss_table st)) as [[ev s]|ee|pp] eqn:GB.
+  - assert (NG : generate_moves zt (ss_board st) AllMoves <> []) by (rewrite G; discriminate).
+    destruct (search_sends_a_move zt osort osort_nonempty (sc_k sc) (sc_fuel sc) HF (ss_board st) (ss_table st) ev s NG GB) as [b0 Hb0].
+    apply send_in_sends_of in Hb0.
+    destruct (exists_last (l := sends_of ev)) as (more & b & E); [intros X; rewrite X in Hb0; contradiction|].
+    rewrite E in GS. rewrite app_length in GS. cbn [length] in GS.
+    replace (length more + 1 - 1)%nat with (length more) in GS by lia.
+    rewrite nth_error_app2 in GS by lia. rewrite Nat.sub_diag in GS. cbn [nth_error] in GS.
+    destruct (best_move_text b) as [t| |] eqn:BT.
+    + exists ev, s, b, t, more. assert (st' = mkSess b (ss_table st) Running) by congruence. assert (outs = infos_of ev ++ [s_bestmove ++ t]) by congruence. subst. repeat split; auto.
+    + assert (st' = mkSess b (ss_table st) (Crashed 50)) by congruence. subst. discriminate RU.
+    + assert (st' = mkSess b (ss_table st) (Crashed 50)) by congruence. subst. discriminate RU.
+  - assert (st' = mkSess (ss_board st) (ss_table st) (Crashed ee)) by congruence. subst. discriminate RU.
+  - assert (st' = mkSess (ss_board st) (ss_table st) (Crashed pp)) by congruence. subst. discriminate RU.
 Qed.
 
 End G.
